@@ -383,6 +383,9 @@ func BlockDominatedBy(b *ssa.BasicBlock, pat CondPat) bool {
 // CallCond: condition is a call to fn whose args satisfy argPats (nil = any)
 // and whose outcome is want.
 func CallCond(fn *ssa.Function, want bool, argPats ...VPat) CondPat {
+	if _, _, isSna := snaHelper(fn); isSna && len(argPats) <= 2 {
+		return snaCond(fn, want, argPats)
+	}
 	return func(c ssa.Value, taken bool) bool {
 		call, ok := isCallTo(c, fn)
 		if !ok || taken != want {
@@ -485,7 +488,9 @@ func unconv(v ssa.Value) ssa.Value {
 }
 
 // IsLoadOf: v is a load (or atomic load) of the given field.
-func IsLoadOf(f *types.Var) VPat {
+func IsLoadOf(f *types.Var) VPat { return withHelpers(isLoadOf0(f)) }
+
+func isLoadOf0(f *types.Var) VPat {
 	return func(v ssa.Value) bool {
 		v = unconv(v)
 		switch x := v.(type) {
@@ -507,12 +512,18 @@ func IsLoadOf(f *types.Var) VPat {
 	}
 }
 
+// withHelpers makes a value pattern transparent to single-return helpers and
+// to parameters of single-call-site private helpers (see helpers.go).
+func withHelpers(pat VPat) VPat {
+	return func(v ssa.Value) bool { return viaHelper(pat, v) }
+}
+
 // IsCallOf: v is a call to fn.
 func IsCallOf(fn *ssa.Function) VPat {
-	return func(v ssa.Value) bool {
+	return withHelpers(func(v ssa.Value) bool {
 		_, ok := isCallTo(unconv(v), fn)
 		return ok
-	}
+	})
 }
 
 func IsConstInt(n int64) VPat {
@@ -556,7 +567,9 @@ func Or(ps ...VPat) VPat {
 }
 
 // BinV: v = x op y
-func BinV(op token.Token, x, y VPat) VPat {
+func BinV(op token.Token, x, y VPat) VPat { return withHelpers(binV0(op, x, y)) }
+
+func binV0(op token.Token, x, y VPat) VPat {
 	return func(v ssa.Value) bool {
 		b, ok := unconv(v).(*ssa.BinOp)
 		if !ok || b.Op != op {
@@ -607,8 +620,40 @@ func derives(v ssa.Value, pat VPat, seen map[ssa.Value]bool) bool {
 	case *ssa.Slice:
 		return derives(x.X, pat, seen)
 	case *ssa.Extract:
+		if call, ok := x.Tuple.(*ssa.Call); ok {
+			if rs := helperReturns(call, x.Index); rs != nil {
+				for _, r := range rs {
+					if derives(r, pat, seen) {
+						return true
+					}
+				}
+				return false
+			}
+		}
 		return derives(x.Tuple, pat, seen)
+	case *ssa.Parameter:
+		// a parameter of a private helper derives from what its call sites pass
+		if curProg != nil && x.Parent() != nil && curProg.PrivateHelper(x.Parent()) {
+			for i, q := range x.Parent().Params {
+				if q != x {
+					continue
+				}
+				for _, cs := range curProg.CallSitesOf(x.Parent()) {
+					if i < len(cs.Instr.Common().Args) && derives(cs.Instr.Common().Args[i], pat, seen) {
+						return true
+					}
+				}
+			}
+		}
 	case *ssa.Call:
+		if rs := helperReturns(x, 0); rs != nil {
+			for _, r := range rs {
+				if derives(r, pat, seen) {
+					return true
+				}
+			}
+			return false
+		}
 		if b, ok := x.Call.Value.(*ssa.Builtin); ok {
 			switch b.Name() {
 			case "len", "cap", "min", "max":
@@ -717,12 +762,12 @@ func MustPassOpt(startB *ssa.BasicBlock, startI int, from ssa.Instruction, targe
 		for ; i < len(b.Instrs); i++ {
 			in := b.Instrs[i]
 			if _, isDefer := in.(*ssa.Defer); isDefer {
-				if target(in) {
+				if target(in) || helperAlwaysPasses(in, target, 0) {
 					sawDefer = true
 				}
 				continue
 			}
-			if target(in) {
+			if target(in) || helperAlwaysPasses(in, target, 0) {
 				return true
 			}
 			if opts.Stop != nil && opts.Stop(in) {
@@ -964,6 +1009,9 @@ func CanReach(a, b ssa.Instruction) bool {
 // InstrDominates: a executes before b on every path to b.
 func InstrDominates(a, b ssa.Instruction) bool {
 	if a.Parent() != b.Parent() {
+		return crossDominates(a, b, 0)
+	}
+	if a.Parent() != b.Parent() {
 		return false
 	}
 	if a.Block() == b.Block() {
@@ -1020,10 +1068,23 @@ type condFact struct {
 // constant agrees can have led here, so facts common to those predecessors
 // (including the outcome of their own terminating branch) also hold.
 func DomFacts(b *ssa.BasicBlock) []condFact {
-	return domFacts(b, 0, map[*ssa.BasicBlock]bool{})
+	return domFactsE(b, 0, map[*ssa.BasicBlock]bool{}, false)
+}
+
+// DomFactsX additionally sees through helper functions (helpers.go): outcomes
+// of tests on a helper's result imply the branch outcomes that select the
+// matching returns inside it, and code inside a private helper inherits the
+// facts common to all of its call sites. Used by the "is dominated by" queries;
+// the "nothing else guards this" rules use the local DomFacts.
+func DomFactsX(b *ssa.BasicBlock) []condFact {
+	return domFactsE(b, 0, map[*ssa.BasicBlock]bool{}, true)
 }
 
 func domFacts(b *ssa.BasicBlock, depth int, busy map[*ssa.BasicBlock]bool) []condFact {
+	return domFactsE(b, depth, busy, true)
+}
+
+func domFactsE(b *ssa.BasicBlock, depth int, busy map[*ssa.BasicBlock]bool, ext bool) []condFact {
 	var out []condFact
 	add := func(f condFact) {
 		for _, x := range out {
@@ -1060,7 +1121,7 @@ func domFacts(b *ssa.BasicBlock, depth int, busy map[*ssa.BasicBlock]bool) []con
 			}
 			feasible++
 			pred := pb.Preds[i]
-			facts := domFacts(pred, depth+1, busy)
+			facts := domFactsE(pred, depth+1, busy, ext)
 			// the edge pred->pb itself
 			if len(pred.Instrs) > 0 {
 				if ifi, ok := pred.Instrs[len(pred.Instrs)-1].(*ssa.If); ok && pred.Succs[0] != pred.Succs[1] {
@@ -1095,12 +1156,25 @@ func domFacts(b *ssa.BasicBlock, depth int, busy map[*ssa.BasicBlock]bool) []con
 			}
 		}
 	}
+	// helper transparency: outcomes of tests on a helper's result, and the
+	// facts common to all call sites when b lies in a private helper
+	if !ext {
+		return out
+	}
+	for _, f := range out[:len(out):len(out)] {
+		for _, g := range helperCondFacts(f.Cond, f.Taken, depth, busy) {
+			add(g)
+		}
+	}
+	for _, g := range callerFacts(b, depth, busy) {
+		add(g)
+	}
 	return out
 }
 
 // DominatedByExt is DominatedBy over DomFacts.
 func DominatedByExt(in ssa.Instruction, pat CondPat) bool {
-	for _, f := range DomFacts(in.Block()) {
+	for _, f := range DomFactsX(in.Block()) {
 		if pat(f.Cond, f.Taken) {
 			return true
 		}
@@ -1330,7 +1404,7 @@ func phiLeaves(v ssa.Value) []phiLeaf {
 
 // blockFacts: DomFacts of b plus nothing else (helper for edge origins).
 func factsAt(b *ssa.BasicBlock, pat CondPat) bool {
-	for _, f := range DomFacts(b) {
+	for _, f := range DomFactsX(b) {
 		if pat(f.Cond, f.Taken) {
 			return true
 		}
